@@ -70,7 +70,7 @@ theorem wait_nil (es : List Ev) (s : St) (t : Nat)
   | some s' =>
     have hth := retWait_from sm s' t .nil hst
     obtain ⟨es1, e, es2, s0, s1, g1, g2, g3, g4, g5, _⟩ :=
-      model.run_first_flip (fun s => s.th[t]? = some (.wRet .nil)) model.init sm es hr
+      Broadcast.run_first_flip model (fun s => s.th[t]? = some (.wRet .nil)) model.init sm es hr
         (by simp [model]) hth
     rcases step_wRet s0 s1 e t .nil g3 g5 g4 with ⟨hb, _⟩ | ⟨hb, _⟩ | ⟨p, he, hw, _, hres⟩
     · cases hb
@@ -93,7 +93,7 @@ theorem wait_err (es : List Ev) (s : St) (t : Nat)
   | some s' =>
     have hth := retWait_from sm s' t .err hst
     obtain ⟨es1, e, es2, s0, s1, g1, g2, g3, g4, g5, _⟩ :=
-      model.run_first_flip (fun s => s.th[t]? = some (.wRet .err)) model.init sm es hr
+      Broadcast.run_first_flip model (fun s => s.th[t]? = some (.wRet .err)) model.init sm es hr
         (by simp [model]) hth
     rcases step_wRet s0 s1 e t .err g3 g5 g4 with ⟨hb, _⟩ | ⟨hb, _⟩ | ⟨p, he, hw, _, hres⟩
     · cases hb
@@ -114,12 +114,12 @@ theorem wait_canceled (es : List Ev) (s : St) (t : Nat)
   | some s' =>
     have hth := retWait_from sm s' t .canceled hst
     obtain ⟨es1, e, es2, s0, s1, g1, g2, g3, g4, g5, _⟩ :=
-      model.run_first_flip (fun s => s.th[t]? = some (.wRet .canceled)) model.init sm es hr
+      Broadcast.run_first_flip model (fun s => s.th[t]? = some (.wRet .canceled)) model.init sm es hr
         (by simp [model]) hth
     rcases step_wRet s0 s1 e t .canceled g3 g5 g4 with ⟨hb, _⟩ | ⟨_, hcx, _⟩ | ⟨p, _, _, _, hres⟩
     · cases hb
     · obtain ⟨fs1, e', fs2, u0, u1, k1, _, k3, k4, k5, _⟩ :=
-        model.run_first_flip (fun s => s.cx.contains t = true) model.init s0 es1 g2
+        Broadcast.run_first_flip model (fun s => s.cx.contains t = true) model.init s0 es1 g2
           (by simp [model]) hcx
       have := step_cx u0 u1 e' t k3 k5 (by simpa using k4)
       subst this
@@ -137,7 +137,7 @@ theorem wait_badarg (es : List Ev) (s : St) (t : Nat)
   | some s' =>
     have hth := retWait_from sm s' t .badarg hst
     obtain ⟨es1, e, es2, s0, s1, g1, g2, g3, g4, g5, _⟩ :=
-      model.run_first_flip (fun s => s.th[t]? = some (.wRet .badarg)) model.init sm es hr
+      Broadcast.run_first_flip model (fun s => s.th[t]? = some (.wRet .badarg)) model.init sm es hr
         (by simp [model]) hth
     rcases step_wRet s0 s1 e t .badarg g3 g5 g4 with ⟨_, he⟩ | ⟨hb, _⟩ | ⟨p, _, _, _, hres⟩
     · subst he; rw [g1]; simp
@@ -231,7 +231,7 @@ history the model accepts satisfies C03 in its observable form. -/
 theorem C03_obs (es : List Ev) (s : St) (h : model.run model.init es = some s) :
     monC03.accepts (es.filterMap model.obs) = true := by
   unfold monC03
-  rw [ObsMonitor.prod_accepts, C03_probe_obs es s h, C03_wait_obs es s h]; rfl
+  rw [monProd_accepts, C03_probe_obs es s h, C03_wait_obs es s h]; rfl
 
 /-! ## the model can do something -/
 
